@@ -61,6 +61,7 @@ static void mk_window(void) {
 }
 
 /* ---------------------------------------------------------------- split */
+#ifndef LOCK_ONLY
 static OrcCodeChunk * orc_code_chunk_split (OrcCodeChunk *chunk, int size)
 __CPROVER_requires(g_lock == 1)                                  /* "Must be called with orc_global_mutex_lock()" */
 __CPROVER_requires(WIN_OK() && chunk == w_c && size > 0 && size < chunk->size)
@@ -73,6 +74,17 @@ __CPROVER_ensures(w_n == NULL ? (__CPROVER_return_value->next == NULL &&
                                  __CPROVER_return_value->offset + __CPROVER_return_value->size == w_r->size)
                               : C_LINK(__CPROVER_return_value, w_n))
 __CPROVER_ensures(chunk->used == __CPROVER_old(chunk->used));
+#else
+/* C08 lock-discipline variant (-DLOCK_ONLY): the callee contracts say only what the lock discipline needs - split and the
+ * free-chunk search must be entered with the global mutex held - so that they can be used in REPLACE mode inside
+ * orc_code_allocate_codemem (the full contracts above are enforced in their own units; in replace mode their is_fresh
+ * postconditions are fragile, tool fact 9) */
+static OrcCodeChunk * orc_code_chunk_split (OrcCodeChunk *chunk, int size)
+__CPROVER_requires(g_lock == 1)                                  /* "Must be called with orc_global_mutex_lock()" */
+__CPROVER_requires(__CPROVER_rw_ok(chunk, sizeof(*chunk)))
+__CPROVER_assigns(chunk->size, chunk->next)
+__CPROVER_ensures(__CPROVER_is_fresh(__CPROVER_return_value, sizeof(OrcCodeChunk)));
+#endif
 
 /* ---------------------------------------------------------------- merge (chunk absorbs chunk->next) */
 static void orc_code_chunk_merge (OrcCodeChunk *chunk)
@@ -127,6 +139,7 @@ __CPROVER_assigns()
 __CPROVER_ensures(__CPROVER_return_value == NULL || (__CPROVER_pointer_equals(__CPROVER_return_value, w_c) && w_c->used == 0 && size <= w_c->size));
 
 OrcCode *g_code;
+#ifndef LOCK_ONLY
 void orc_code_allocate_codemem (OrcCode *code, int size)
 __CPROVER_requires(g_lock == 0 && WIN_OK() && __CPROVER_rw_ok(code, sizeof(*code)))
 __CPROVER_requires(size >= 0 && size <= 65536 && (_orc_codemem_alignment == 15 || _orc_codemem_alignment == 31 || _orc_codemem_alignment == 63))
@@ -141,6 +154,17 @@ __CPROVER_ensures(code->chunk == __CPROVER_old(code->chunk) || (code->chunk == w
      (w_c->next == NULL ==> w_c->offset + w_c->size == w_r->size) &&
      ((w_c->next != NULL && w_c->next != w_n) ==> (w_c->next->used == 0 && (w_n == NULL ? (w_c->next->next == NULL && w_c->next->offset + w_c->next->size == w_r->size) : C_LINK(w_c->next, w_n))))));
 
+#else
+/* the chunk is marked used, and its fields are written, only between lock and unlock: expressed through the callees'
+ * preconditions (search and split need the lock) and through the ghost g_used_unlocked set by the harness-visible hook below */
+void orc_code_allocate_codemem (OrcCode *code, int size)
+__CPROVER_requires(g_lock == 0 && WIN_OK() && __CPROVER_rw_ok(code, sizeof(*code)))
+__CPROVER_requires(size >= 0 && size <= 65536 && (_orc_codemem_alignment == 15 || _orc_codemem_alignment == 31 || _orc_codemem_alignment == 63))
+__CPROVER_requires(w_r->size == 65536)
+__CPROVER_assigns(g_lock, code->chunk, code->code, code->exec, code->code_size, w_c->used, w_c->size, w_c->next)
+__CPROVER_ensures(g_lock == 0);
+
+#endif
 void h_allocate(void) {
   mk_window(); g_lock = nondet_int(); _orc_codemem_alignment = nondet_int();
   OrcCode *code = malloc(sizeof(*code)); __CPROVER_assume(code != NULL);
